@@ -74,6 +74,9 @@ type Case struct {
 	// CustomFind: CopyGraphOptions.FindSuccessors is set (to a thin wrapper of
 	// content.Successors that records its calls)
 	CustomFind bool `json:"customFind,omitempty"`
+	// FindBypass (with CustomFind): the caller's FindSuccessors does not use the
+	// fetcher it is handed but reads the source itself (an index of its own)
+	FindBypass bool `json:"findBypass,omitempty"`
 	// Clash (file-store destination): the names (titles) of these nodes are already
 	// taken in the destination by OTHER content
 	Clash    []int `json:"clash,omitempty"`
@@ -392,6 +395,9 @@ func (e *Env) graphOptions() oras.CopyGraphOptions {
 	}
 	if e.C.CustomFind {
 		o.FindSuccessors = func(ctx context.Context, fetcher content.Fetcher, desc ocispec.Descriptor) ([]ocispec.Descriptor, error) {
+			if e.C.FindBypass {
+				return content.Successors(ctx, e.RawSrc, desc)
+			}
 			return content.Successors(ctx, fetcher, desc)
 		}
 	}
